@@ -169,6 +169,9 @@ func c19Run(t *testing.T, c c19Case) (leaks []string, sites map[string]bool, abo
 			psyncs := 0
 			m.PsyncReply = func(p msource.Psync) string {
 				psyncs++
+				if c.Fault == "continue-source-cut" {
+					return "+CONTINUE" // the target holds a checkpoint of this source: the first PSYNC already continues
+				}
 				if psyncs == 1 {
 					return "+FULLRESYNC 0123456789abcdef0123456789abcdef01234567 100"
 				}
@@ -189,6 +192,17 @@ func c19Run(t *testing.T, c c19Case) (leaks []string, sites map[string]bool, abo
 				return nil
 			}
 			tgt := mredis.New(topt)
+			if c.Fault == "continue-source-cut" {
+				ck := utils.CheckpointKey
+				if c.SourceType == conf.RedisTypeCluster {
+					ck = utils.ChoseSlotInRange(utils.CheckpointKey, 0, 5460)
+				}
+				tgt.Put(0, ck, &mredis.Entry{Kind: "hash", Hash: map[string][]byte{
+					"src:6379-" + utils.CheckpointRunId:   []byte("0123456789abcdef0123456789abcdef01234567"),
+					"src:6379-" + utils.CheckpointOffset:  []byte("100"),
+					"src:6379-" + utils.CheckpointVersion: []byte("1"),
+				}, HashOrd: []string{"src:6379-" + utils.CheckpointRunId, "src:6379-" + utils.CheckpointOffset, "src:6379-" + utils.CheckpointVersion}})
+			}
 			hook.SetDialHook(func(network, addr string) (net.Conn, error, bool) {
 				if c.Fault == "source-unreachable" && strings.HasPrefix(addr, "src") {
 					return nil, fmt.Errorf("dial tcp %s: connect: connection refused", addr), true
@@ -234,7 +248,7 @@ func c19Run(t *testing.T, c c19Case) (leaks []string, sites map[string]bool, abo
 						m.Conn(m.Psyncs()[len(m.Psyncs())-1].Conn).Write(stream)
 					}
 				case 7:
-					if c.Fault == "source-cut" && len(m.Psyncs()) > 0 {
+					if (c.Fault == "source-cut" || c.Fault == "continue-source-cut") && len(m.Psyncs()) > 0 {
 						m.Conn(m.Psyncs()[len(m.Psyncs())-1].Conn).(*memconn.Conn).Cut()
 					}
 				case 10:
@@ -296,7 +310,10 @@ func TestVerif_C19(t *testing.T) {
 	for _, level := range []string{"debug", "info"} {
 		for _, st := range []string{"standalone", conf.RedisTypeCluster} {
 			for _, resume := range []bool{false, true} {
-				for _, fault := range []string{"", "source-cut", "target-error", "bad-source-password", "unknown-auth-type", "no-master", "source-unreachable"} {
+				for _, fault := range []string{"", "source-cut", "target-error", "bad-source-password", "unknown-auth-type", "no-master", "source-unreachable", "continue-source-cut"} {
+					if fault == "continue-source-cut" && !resume {
+						continue
+					}
 					idx++
 					if !ev.Mine(idx) {
 						continue
